@@ -185,6 +185,17 @@ impl MoveGenerator {
     }
 }
 
+/// Verification hook: the sequential inner position counter, exposed for checking.
+#[cfg(chess_verif)]
+pub fn verif_count_positions_inner(
+    depth: u8,
+    board: &mut Board,
+    color: Color,
+    move_generator: &mut MoveGenerator,
+) -> usize {
+    count_positions_inner(depth, board, color, move_generator)
+}
+
 fn count_positions_inner(
     depth: u8,
     board: &mut Board,
